@@ -27,6 +27,8 @@ Rules are phrased over this canonical form so that behaviour-preserving respelli
  N19 a local bound once at the top of a function to a plain attribute chain whose attributes the function never assigns
      (`registered = self.__registered_classes`) is replaced by the chain where it is read
  N21 `cast(T, e)` -> `e`;  N14b `if T: return True` + `return False` -> `return T` for boolean-valued T
+ N23 `v = A; if C: ..; v = B` + the only use `S(v)` (A a plain chain or constant that the arms leave alone, every override in tail
+     position) -> the arms that do not override end in `v = A` (N15 then sinks S into the arms)
  N18 a self-assignment `x = x` is dropped
  N6  `v = []` directly followed by `for t in xs: [if c:] v.append(e)` -> `v = [e for t in xs if c]`
 
@@ -148,6 +150,44 @@ class _Norm(ast.NodeTransformer):
                 rest = _Norm._continue_guards(body[i + 1:])
                 neg = ast.copy_location(ast.UnaryOp(ast.Not(), s.test), s.test)
                 return body[:i] + [ast.copy_location(ast.If(neg, rest, []), s)]
+            if (isinstance(s, ast.If) and not s.orelse and len(s.body) > 1 and isinstance(s.body[-1], ast.Continue) and i + 1 < len(body)
+                    and not any(isinstance(x, (ast.Continue, ast.Break)) for st in s.body[:-1] for x in ast.walk(st))):
+                # `if c: S..; continue` followed by REST  ->  `if c: S.. else: REST`
+                rest = _Norm._continue_guards(body[i + 1:])
+                return body[:i] + [ast.copy_location(ast.If(s.test, s.body[:-1], rest), s)]
+            if isinstance(s, ast.If) and s.orelse and i + 1 < len(body) and len(body) - i - 1 <= 4:
+                # an if/elif chain one of whose arms ends in `continue`, followed by a short REST: REST moves into the arms that
+                # fall through, the `continue` goes
+                import copy
+                arms = []
+                cur = s
+                while True:
+                    arms.append(cur.body)
+                    if len(cur.orelse) == 1 and isinstance(cur.orelse[0], ast.If):
+                        cur = cur.orelse[0]
+                        continue
+                    arms.append(cur.orelse)
+                    last_if = cur
+                    break
+                ends = [a and isinstance(a[-1], ast.Continue) for a in arms]
+                nested_jump = any(isinstance(x, (ast.Continue, ast.Break)) for a in arms for st in (a[:-1] if a and isinstance(a[-1], ast.Continue) else a)
+                                  for x in ast.walk(st))
+                rest_raw = body[i + 1:]
+                if any(ends) and not nested_jump and not any(isinstance(x, (ast.FunctionDef, ast.ClassDef, ast.For, ast.While, ast.Try))
+                                                              for st in rest_raw for x in ast.walk(st)):
+                    rest = _Norm._continue_guards(rest_raw)
+                    for a, e in zip(arms, ends):
+                        if e:
+                            a.pop()
+                            if not a:
+                                a.append(ast.copy_location(ast.Pass(), s))
+                        elif a and isinstance(a[-1], (ast.Return, ast.Raise)):
+                            pass
+                        elif a is last_if.orelse and not a:
+                            last_if.orelse = copy.deepcopy(rest)
+                        else:
+                            a.extend(copy.deepcopy(rest))
+                    return body[:i] + [s]
         return body
 
     def visit_For(self, n: ast.For):
@@ -317,6 +357,15 @@ class _Norm(ast.NodeTransformer):
                         _replace(nx, loads[0], s.value)
                         i += 1
                         continue
+            # N23: a default that is conditionally overridden before its only use: `v = A; if C: ..; v = B; S(v)` -> the default is
+            # written into the arms that do not override it (N15 then sinks S)
+            nx2 = stmts[i + 2] if i + 2 < len(stmts) else None
+            if (isinstance(s, ast.Assign) and len(s.targets) == 1 and isinstance(s.targets[0], ast.Name) and isinstance(nx, ast.If)
+                    and nx2 is not None and isinstance(nx2, (ast.Expr, ast.Assign, ast.Return, ast.Raise))
+                    and (isinstance(s.value, ast.Constant) or _is_chain(s.value))):
+                if self._default_into_arms(fn, s, nx, nx2):
+                    i += 1          # the default assignment is gone; continue with the if statement
+                    continue
             # N16: jump threading - a leaf of an if-chain binds v to a constant and the very next statement is a guard on v
             if isinstance(s, ast.If) and isinstance(nx, ast.If) and not nx.orelse and nx.body \
                     and isinstance(nx.body[-1], (ast.Return, ast.Raise)):
@@ -377,6 +426,65 @@ class _Norm(ast.NodeTransformer):
                 for h in getattr(s, 'handlers', []) or []:
                     _Norm._search_loops(fn, h.body, False)
             i += 1
+
+    @staticmethod
+    def _default_into_arms(fn, s: ast.Assign, cond: ast.If, use: ast.stmt) -> bool:
+        import copy
+        v = s.targets[0].id
+        if _captured(fn, v):
+            return False
+        loads = [n for n in ast.walk(fn) if isinstance(n, ast.Name) and n.id == v and isinstance(n.ctx, ast.Load)]
+        if len(loads) != 1 or not any(loads[0] is n for h in _head_exprs(use) for n in ast.walk(h)):
+            return False
+        inner = [n for n in ast.walk(cond) if isinstance(n, ast.Name) and n.id == v]
+        if not inner or any(isinstance(n.ctx, ast.Load) for n in inner):
+            return False
+        all_stores = [n for n in ast.walk(fn) if isinstance(n, ast.Name) and n.id == v and not isinstance(n.ctx, ast.Load)]
+        if len(all_stores) != len(inner) + 1:
+            return False
+        # the default must mean the same after the arms have run: its names are not re-bound and its attributes not stored in there
+        dnames = {n.id for n in ast.walk(s.value) if isinstance(n, ast.Name)}
+        dattrs = {n.attr for n in ast.walk(s.value) if isinstance(n, ast.Attribute)}
+        for n in ast.walk(cond):
+            if isinstance(n, ast.Name) and n.id in dnames and not isinstance(n.ctx, ast.Load):
+                return False
+            if isinstance(n, ast.Attribute) and n.attr in dattrs and isinstance(n.ctx, (ast.Store, ast.Del)):
+                return False
+        # every assignment to v sits in tail position
+        tails = []
+
+        def tail_positions(block):
+            if not block:
+                return
+            last = block[-1]
+            tails.append(last)
+            if isinstance(last, ast.If):
+                tail_positions(last.body)
+                tail_positions(last.orelse)
+        tails.append(cond)
+        tail_positions(cond.body)
+        tail_positions(cond.orelse)
+        for n in ast.walk(cond):
+            if isinstance(n, ast.Assign) and any(isinstance(x, ast.Name) and x.id == v for t in n.targets for x in ast.walk(t)):
+                if not (len(n.targets) == 1 and isinstance(n.targets[0], ast.Name) and any(n is t for t in tails)):
+                    return False
+            elif isinstance(n, (ast.AugAssign, ast.AnnAssign, ast.For, ast.With, ast.NamedExpr)) and any(
+                    isinstance(x, ast.Name) and x.id == v and not isinstance(x.ctx, ast.Load) for x in ast.walk(n)):
+                return False
+
+        def complete(block, loc):
+            if block and isinstance(block[-1], ast.Assign) and isinstance(block[-1].targets[0], ast.Name) and block[-1].targets[0].id == v:
+                return
+            if block and isinstance(block[-1], (ast.Return, ast.Raise, ast.Continue, ast.Break)):
+                return
+            if block and isinstance(block[-1], ast.If):
+                complete(block[-1].body, block[-1])
+                complete(block[-1].orelse, block[-1])
+                return
+            block.append(ast.copy_location(ast.Assign([ast.Name(v, ast.Store())], copy.deepcopy(s.value), lineno=getattr(loc, 'lineno', 0)), loc))
+        complete(cond.body, cond)
+        complete(cond.orelse, cond)
+        return True
 
     @staticmethod
     def _thread_guard(fn, s: ast.If, nx: ast.If):
